@@ -2,6 +2,7 @@ package harness
 
 import (
 	"fmt"
+	"sort"
 	"strings"
 	"testing"
 
@@ -193,7 +194,13 @@ func genC09Fuzz(t *rapid.T) C09Fuzz {
 		}
 		d, _ := genDict(t)
 		files, _ := d.filesAndArgs()
-		for n, content := range files {
+		var names []string
+		for n := range files {
+			names = append(names, n)
+		}
+		sort.Strings(names)
+		for _, n := range names {
+			content := files[n]
 			b, _ := mutateBytes(t, []byte(content), hostileDict)
 			c.Files[n] = b
 			if strings.HasPrefix(n, "attr") {
